@@ -121,7 +121,7 @@ def check(case, ctx):
     ref = Ref(spec)
     G = build(spec)
     if "no-coalesce-value-failure" in ctx.flags:
-        if any("coalesce-absorbed-value-failure" in ref.run(o).labels for o, _ in case["steps"]):
+        if any("absorbed-under-cache" in ref.run(o).labels for o, _ in case["steps"]):
             ctx.exclude("no-coalesce-value-failure")
             ctx.done(case, False, ["excluded-K6"])
             return
